@@ -22,6 +22,10 @@ type RouteSpec struct {
 	NoCT     []string `json:"noct,omitempty"` // AllowedMethodsWithoutContentType
 	Enc      *bool    `json:"enc,omitempty"`  // ContentEncodingEnabled override
 	NFilters int      `json:"nfilters,omitempty"`
+	// PathForm: how the relative path is written in the builder call; the template is the same.
+	// 0 "/a/b" (or "" for the empty path), 1 trailing slash "/a/b/" ("/" for the empty path),
+	// 2 no leading slash "a/b", 3 both "a/b/"
+	PathForm int `json:"path_form,omitempty"`
 }
 
 // ServiceSpec declares one WebService.
@@ -32,6 +36,9 @@ type ServiceSpec struct {
 	Routes   []RouteSpec `json:"routes"`
 	Dynamic  bool        `json:"dynamic,omitempty"`
 	NFilters int         `json:"nfilters,omitempty"`
+	// RootForm: 0 "/a/b" ("/" for the empty root), 1 trailing slash "/a/b/", 2 (empty root only)
+	// Path() is never called: the root path is set lazily by Container.Add
+	RootForm int `json:"root_form,omitempty"`
 }
 
 // TableSpec is a whole route table.
